@@ -1096,6 +1096,65 @@ impl Family for Star {
     }
 }
 
+/// RINGCHK: the BLACK king (not to move) on every square that has eight neighbours or lies on the
+/// a-file, each neighbour empty or a white pawn or a black rook / knight; a white queen or rook
+/// anywhere; the white king in the far corner. White to move: checks against a king whose
+/// neighbourhood holds the mover's own pawns (which may or may not attack it) and defenders that can
+/// interpose or capture — the `+` / `#` decision when the king cannot move but others can.
+pub struct RingChk;
+impl Family for RingChk {
+    fn name(&self) -> String {
+        "RINGCHK".into()
+    }
+    fn len(&self) -> u64 {
+        42 * 4u64.pow(8) * 2 * 64
+    }
+    fn decode(&self, mut i: u64) -> Option<Pos> {
+        let ks = (i % 42) as i8;
+        i /= 42;
+        // 36 interior squares, then a2..a7
+        let (kf, kr) = if ks < 36 { (1 + ks % 6, 1 + ks / 6) } else { (0, 1 + (ks - 36)) };
+        let mut p = Pos::empty();
+        p.board[sq_at(kf, kr)? as usize] = pc(BLACK, KING);
+        let opts = [EMPTY, pc(WHITE, PAWN), pc(BLACK, ROOK), pc(BLACK, KNIGHT)];
+        for (df, dr) in [(-1i8, -1i8), (0, -1), (1, -1), (-1, 0), (1, 0), (-1, 1), (0, 1), (1, 1)] {
+            let o = opts[(i % 4) as usize];
+            i /= 4;
+            let sq = match sq_at(kf + df, kr + dr) {
+                Some(s) => s,
+                None => {
+                    if o != EMPTY {
+                        return None;
+                    }
+                    continue;
+                }
+            };
+            if o == pc(WHITE, PAWN) && (row_of(sq) == 0 || row_of(sq) == 7) {
+                return None;
+            }
+            p.board[sq as usize] = o;
+        }
+        let heavy = if i % 2 == 0 { QUEEN } else { ROOK };
+        i /= 2;
+        let hsq = (i % 64) as u8;
+        if p.board[hsq as usize] != EMPTY {
+            return None;
+        }
+        p.board[hsq as usize] = pc(WHITE, heavy);
+        let wk = sq_at(if kf <= 3 { 7 } else { 0 }, if kr <= 3 { 7 } else { 0 })?;
+        if p.board[wk as usize] != EMPTY {
+            return None;
+        }
+        p.board[wk as usize] = pc(WHITE, KING);
+        p.stm = WHITE;
+        if p.is_legal_position() {
+            Some(p)
+        } else {
+            None
+        }
+    }
+}
+
 /// PAWN7: a white pawn on its 7th rank (every file), both kings, one further white piece and one
 /// black piece (every pair of kinds from Q R B N) anywhere, both sides to move: promotions and
 /// under-promotions with something to lose or to win on the way.
